@@ -270,11 +270,14 @@ func scErrClass(msg string) string {
 	case strings.Contains(msg, "mismatched types"):
 		return "mismatch"
 	case strings.Contains(msg, "not defined on"), strings.Contains(msg, "floating-point % operation"),
-		strings.Contains(msg, "shift of type"), strings.Contains(msg, "invalid operation: !"), strings.Contains(msg, "invalid operation: -"),
-		strings.Contains(msg, "invalid operation: +"), strings.Contains(msg, "invalid operation: ^"), strings.Contains(msg, "must be integer"):
+		strings.Contains(msg, "shift of type"), strings.Contains(msg, "must be integer"):
 		return "invalidop"
 	case strings.Contains(msg, "cannot convert"), strings.Contains(msg, "cannot use"), strings.Contains(msg, "in assignment"):
 		return "convert"
+	case strings.Contains(msg, "invalid operation: ! "), strings.Contains(msg, "invalid operation: - "),
+		strings.Contains(msg, "invalid operation: + "), strings.Contains(msg, "invalid operation: ^ "):
+		// the operand of a unary operator has the wrong kind
+		return "invalidop"
 	}
 	return "other"
 }
